@@ -73,7 +73,12 @@ def run(pid, spec, repo_src, results):
             ds, n = witness.run_category(c, repo_src, 0)
             tried += n
             found += [d for d in ds if pid in d['properties']]
-        out['bounded_corpus'] = dict(cases=tried, discrepancies=len(found), first=(found[0] if found else None))
+            if c in ('parse', 'exec'):
+                for sd in range(1, 7):            # six further seeds of random programs (about 4 000 each), beyond the registered corpus
+                    ds, n = witness.run_category(c, repo_src, sd, random_only=True)
+                    tried += n
+                    found += [d for d in ds if pid in d['properties']]
+        out['bounded_corpus'] = dict(cases=tried, seeds='0 (registered corpus) and 1..6 (random programs only)', discrepancies=len(found), first=(found[0] if found else None))
     except Exception as e:
         out['bounded_corpus'] = dict(error='%s: %s' % (type(e).__name__, str(e)[:200]))
     # 5. C17: the assumed from_iN contracts (A3) validated against the real rust_decimal code by complete Kani harnesses
